@@ -90,6 +90,14 @@ func installHooks() {
 		}
 		return false, nil
 	}
+	// called from resetSegStore (suffix.GetNextSuffix) inside CleanupUnrotatedSegment, i.e. AFTER the segment
+	// has left the unrotated info: a fourth writer step
+	hooks.GlobalHooks.GetNextSuffixHook = func(next uint64, getSegKey func(uint64) string) (uint64, error) {
+		if gid() == writerGID {
+			G.pause("w")
+		}
+		return next, nil
+	}
 	hooks.GlobalHooks.FilterQsrsHook = func(qsrs interface{}, qi interface{}, isRotated bool) (interface{}, error) {
 		// the query runs its segment enumeration on the goroutine that called ParseAndExecutePipeRequest or a child:
 		// only the marked reader is paused
@@ -193,8 +201,8 @@ type result struct {
 	AfterCount int64  `json:"after_count"`
 }
 
-// runs one schedule: writer = one rotation (3 steps: up to the segmeta.json entry | add to the rotated
-// metadata | remove from the unrotated info), reader = one query (3 steps: snapshot of the unrotated list |
+// runs one schedule: writer = one rotation (4 steps: up to the segmeta.json entry | add to the rotated
+// metadata | remove from the unrotated info (up to the suffix hook inside resetSegStore) | rest of the reset), reader = one query (3 steps: snapshot of the unrotated list |
 // snapshot of the rotated list | resolve + read)
 func runSchedule(index string, sched string, qtext string, nEvents int) result {
 	res := result{Schedule: sched, Query: qtext, Feasible: true}
@@ -305,7 +313,7 @@ func main() {
 	log.SetLevel(log.PanicLevel)
 	log.SetOutput(os.Stderr)
 	cfg := vhlib.ParseFlags()
-	sum := vhlib.NewSummary("one case = one forced interleaving of a segment rotation (3 steps) with a query (3 steps) on the real code, for a record query (`*`) and a statistics query (`* | stats count`); all 20 interleavings are enumerated (exhaustive at this granularity); an interleaving that blocks on a lock is recorded as infeasible; non-trivial = both threads take at least one step before the other finishes")
+	sum := vhlib.NewSummary("one case = one forced interleaving of a segment rotation (4 steps) with a query (3 steps) on the real code, for a record query (`*`) and a statistics query (`* | stats count`); all 35 interleavings are enumerated (exhaustive at this granularity); an interleaving that blocks on a lock is recorded as infeasible; non-trivial = both threads take at least one step before the other finishes")
 	if err := initSiglens(cfg.Out + "/data"); err != nil {
 		sum.HarnessError(err.Error())
 		sum.Write(cfg.Out)
@@ -315,7 +323,7 @@ func main() {
 	n := 0
 	var cases []string
 	for _, q := range []string{"*", "* | stats count"} {
-		for _, sched := range interleavings(3, 3) {
+		for _, sched := range interleavings(4, 3) {
 			n++
 			index := fmt.Sprintf("ix%d", n)
 			nEv := 3
@@ -327,7 +335,7 @@ func main() {
 			if !r.Feasible {
 				sum.Count("infeasible(blocked on a lock)")
 			}
-			c := map[string]interface{}{"schedule": sched, "query": q, "result": r, "legend": "w: rotation steps [segmeta.json entry | add to rotated metadata | remove from unrotated info]; r: query steps [snapshot unrotated | snapshot rotated | resolve+read]"}
+			c := map[string]interface{}{"schedule": sched, "query": q, "result": r, "legend": "w: rotation steps [segmeta.json entry | add to rotated metadata | remove from unrotated info | reset of the segstore]; r: query steps [snapshot unrotated | snapshot rotated | resolve+read]"}
 			if r.Err != "" {
 				sum.Fail("query_error_during_rotation", fmt.Sprintf("schedule %s query %q: %s", sched, q, r.Err), c)
 			}
@@ -363,6 +371,7 @@ func main() {
 	defs := "Open Scope nat_scope.\nDefinition cases : list (list tid * nat) := " + vhlib.CoqListNL(cases) + ".\n"
 	sum.WriteCaseFile(cfg.Out, "cases_sched", "From SigM Require Import Base Handover HandoverCheck.\n", defs, "check_sched_cases cases", len(cases))
 	hooks.GlobalHooks.AfterSegmentRotation = nil
+	hooks.GlobalHooks.GetNextSuffixHook = nil
 	hooks.GlobalHooks.UploadIngestNodeExtrasHook = nil
 	hooks.GlobalHooks.FilterQsrsHook = nil
 	stress(cfg, sum)
